@@ -43,6 +43,8 @@ pub enum X {
     InSub(Box<X>, bool, Box<Sel>),
     /// MySQL / Postgres: `expr op ANY|SOME|ALL (subquery)` — (expr, comparison, 0 any / 1 some / 2 all, subquery)
     SubOp(Box<X>, BinOper, u8, Box<Sel>),
+    /// `(e1, e2, ..) IN ((v, v, ..), ..)` through `Expr::tuple(..).in_tuples(rows)`
+    InTuples(Vec<X>, Vec<Vec<Value>>),
     /// a keyword atom: CURRENT_TIMESTAMP / CURRENT_DATE / CURRENT_TIME, or a custom keyword
     Kw(&'static str),
     /// scalar subquery
@@ -315,6 +317,10 @@ impl X {
                 };
                 e.build().binary(*op, sub)
             }
+            X::InTuples(cols, rows) => {
+                let lhs = Expr::tuple(cols.iter().map(|c| c.build()));
+                lhs.in_tuples(rows.iter().map(|r| ValueTuple::Many(r.clone())))
+            }
             X::Kw(k) => match *k {
                 "CURRENT_TIMESTAMP" => Expr::current_timestamp().into(),
                 "CURRENT_DATE" => Expr::current_date().into(),
@@ -423,7 +429,7 @@ impl X {
                 }
             }
             X::Kw(k) => PX::Kw(k.to_string()),
-            X::Val(_) | X::Exists(..) | X::InSub(..) | X::Scalar(_) | X::CustWith(..) | X::SubOp(..) => {
+            X::Val(_) | X::Exists(..) | X::InSub(..) | X::Scalar(_) | X::CustWith(..) | X::SubOp(..) | X::InTuples(..) => {
                 unimplemented!("statement-level nodes are compared through the reference renderer, not expected()")
             }
         }
@@ -444,6 +450,7 @@ impl X {
             X::Col(_) | X::Int(_) | X::Text(_) | X::Null | X::Bool(_) => vec![],
             X::QCol(..) | X::Val(_) | X::Star | X::Exists(..) | X::Scalar(_) | X::Cust(_) | X::Kw(_) => vec![],
             X::InSub(e, _, _) | X::AsEnum(_, e) | X::SubOp(e, _, _, _) => vec![e],
+            X::InTuples(c, _) => c.iter().collect(),
             X::CustWith(_, args, _) => args.iter().collect(),
             X::Not(e) | X::IsNull(e, _) | X::Cast(e, _) => vec![e],
             X::Bin(l, _, r) => vec![l, r],
@@ -482,6 +489,7 @@ impl X {
             X::Scalar(_) => "(sub)".into(),
             X::SubOp(_, _, k, _) => ["ANY(sub)", "SOME(sub)", "ALL(sub)"][*k as usize % 3].into(),
             X::Kw(k) => k.to_string(),
+            X::InTuples(..) => "IN(tuples)".into(),
             X::AsEnum(..) => "AS ENUM".into(),
             X::CustWith(..) => "custom".into(),
         }
